@@ -293,11 +293,13 @@ func (c *codecV2) EncodeRequest(req *tikvrpc.Request) (*tikvrpc.Request, error) 
 		r := *req.BatchCop()
 		r.Regions = c.encodeRegionInfos(r.Regions)
 		r.TableRegions = c.encodeTableRegions(r.TableRegions)
+		r.TableShardInfos = c.encodeTableShardInfos(r.TableShardInfos)
 		req.Req = &r
 	case tikvrpc.CmdMPPTask:
 		r := *req.DispatchMPPTask()
 		r.Regions = c.encodeRegionInfos(r.Regions)
 		r.TableRegions = c.encodeTableRegions(r.TableRegions)
+		r.TableShardInfos = c.encodeTableShardInfos(r.TableShardInfos)
 		req.Req = &r
 
 	// Other requests.
@@ -313,15 +315,12 @@ func (c *codecV2) EncodeRequest(req *tikvrpc.Request) (*tikvrpc.Request, error) 
 		r := *req.StoreSafeTS()
 		r.KeyRange = c.encodeKeyRange(r.KeyRange)
 		req.Req = &r
-	case tikvrpc.CmdCop:
+	case tikvrpc.CmdCop, tikvrpc.CmdCopStream:
 		r := *req.Cop()
 		r.Ranges = c.encodeCopRanges(r.Ranges)
 		r.Tasks = c.encodeStoreBatchTasks(r.Tasks)
-		req.Req = &r
-	case tikvrpc.CmdCopStream:
-		r := *req.Cop()
-		r.Ranges = c.encodeCopRanges(r.Ranges)
-		r.Tasks = c.encodeStoreBatchTasks(r.Tasks)
+		r.VersionedRanges = c.encodeVersionedRanges(r.VersionedRanges)
+		r.TableShardInfos = c.encodeTableShardInfos(r.TableShardInfos)
 		req.Req = &r
 	case tikvrpc.CmdMvccGetByKey:
 		r := *req.MvccGetByKey()
@@ -967,9 +966,43 @@ func (c *codecV2) encodeStoreBatchTasks(tasks []*coprocessor.StoreBatchTask) []*
 	for _, task := range tasks {
 		t := *task
 		t.Ranges = c.encodeCopRanges(t.Ranges)
+		t.VersionedRanges = c.encodeVersionedRanges(t.VersionedRanges)
 		encodedTasks = append(encodedTasks, &t)
 	}
 	return encodedTasks
+}
+
+func (c *codecV2) encodeVersionedRanges(ranges []*coprocessor.VersionedKeyRange) []*coprocessor.VersionedKeyRange {
+	if ranges == nil {
+		return nil
+	}
+	newRanges := make([]*coprocessor.VersionedKeyRange, 0, len(ranges))
+	for _, r := range ranges {
+		nr := *r
+		if r.Range != nil {
+			nr.Range = c.encodeCopRange(r.Range)
+		}
+		newRanges = append(newRanges, &nr)
+	}
+	return newRanges
+}
+
+func (c *codecV2) encodeTableShardInfos(infos []*coprocessor.TableShardInfos) []*coprocessor.TableShardInfos {
+	if infos == nil {
+		return nil
+	}
+	encodedInfos := make([]*coprocessor.TableShardInfos, 0, len(infos))
+	for _, info := range infos {
+		i := *info
+		i.ShardInfos = make([]*coprocessor.ShardInfo, 0, len(info.ShardInfos))
+		for _, shard := range info.ShardInfos {
+			sh := *shard
+			sh.Ranges = c.encodeCopRanges(shard.Ranges)
+			i.ShardInfos = append(i.ShardInfos, &sh)
+		}
+		encodedInfos = append(encodedInfos, &i)
+	}
+	return encodedInfos
 }
 
 func (c *codecV2) decodeRegionError(regionError *errorpb.Error) (*errorpb.Error, error) {
